@@ -109,6 +109,20 @@ def View.apply (v : View) (e : Effect) : View :=
 
 def View.applyAll (v : View) (es : List Effect) : View := es.foldl View.apply v
 
+/-- row ids are ordered lexicographically (operation index, row index) = insertion order -/
+def ridLt (a b : Rid) : Prop := a.1 < b.1 ∨ (a.1 = b.1 ∧ a.2 < b.2)
+
+instance (a b : Rid) : Decidable (ridLt a b) := inferInstanceAs (Decidable (_ ∨ _))
+
+/-- insertion into a view kept in row-id order -/
+def insertRid (x : ARow) : View → View
+  | [] => [x]
+  | y :: ys => if ridLt x.rid y.rid then x :: y :: ys else y :: insertRid x ys
+
+/-- `base` with the rows whose id is in `ws` replaced by what `mine` has for them (nothing = deleted) -/
+def takeOver (base mine : View) (ws : List Rid) : View :=
+  (mine.filter (fun r => ws.contains r.rid)).foldr insertRid (base.filter (fun r => !ws.contains r.rid))
+
 /-- output of one statement -/
 inductive SOut where
   | okN (n : Nat)
@@ -203,18 +217,25 @@ structure Plan where
   out : SOut
   deriving Repr
 
-/-- INSERT, row by row: cast, NOT NULL, UNIQUE (against the view including the rows inserted so far), insert. -/
-def planIns (ts : TableSchema) (clock : Nat) : View → List (List Val) → Nat → List Effect → Nat → Plan
-  | _, [], _, acc, n => ⟨acc.reverse, .okN n⟩
-  | v, r :: rs, j, acc, n =>
+/-- one more row processed successfully -/
+def Plan.cons (e : Effect) (p : Plan) : Plan :=
+  ⟨e :: p.effs, match p.out with
+    | .okN n => .okN (n + 1)
+    | o => o⟩
+
+/-- INSERT, row by row: cast, NOT NULL, UNIQUE (against the view including the rows inserted so far), insert.
+    `j` = index of the next inserted row within the operation. -/
+def planIns (ts : TableSchema) (clock : Nat) : View → List (List Val) → Nat → Plan
+  | _, [], _ => ⟨[], .okN 0⟩
+  | v, r :: rs, j =>
     match castRow ts.cols r with
-    | .error e => ⟨acc.reverse, .err e⟩
+    | .error e => ⟨[], .err e⟩
     | .ok r' =>
-      if !notNullOk ts.cols r' then ⟨acc.reverse, .err .constraint⟩
-      else if !uniqueOk v ts none r' then ⟨acc.reverse, .err .constraint⟩
+      if !notNullOk ts.cols r' then ⟨[], .err .constraint⟩
+      else if !uniqueOk v ts none r' then ⟨[], .err .constraint⟩
       else
         let e := Effect.ins (clock, j) ts.name r'
-        planIns ts clock (v.apply e) rs (j + 1) (e :: acc) (n + 1)
+        (planIns ts clock (v.apply e) rs (j + 1)).cons e
 
 /-- new value of the assigned column for one row -/
 def newValue (c : Col) (add : Bool) (x : Val) (cur : Val) : Except Err Val :=
@@ -229,25 +250,25 @@ def newValue (c : Col) (add : Bool) (x : Val) (cur : Val) : Except Err Val :=
 
 /-- UPDATE over the rows of the scan (the view at statement start), checks against the evolving view. -/
 def planUpd (ts : TableSchema) (ci : Nat) (c : Col) (add : Bool) (x : Val) (p : Option (Nat × CmpOp × Val)) :
-    View → List ARow → List Effect → Nat → Plan
-  | _, [], acc, n => ⟨acc.reverse, .okN n⟩
-  | v, r :: rs, acc, n =>
+    View → List ARow → Plan
+  | _, [] => ⟨[], .okN 0⟩
+  | v, r :: rs =>
     if r.table == ts.name && rowMatches p r.vals then
       match newValue c add x (r.vals.getD ci .null) with
-      | .error e => ⟨acc.reverse, .err e⟩
+      | .error e => ⟨[], .err e⟩
       | .ok nv =>
-        if c.notNull && nv == .null then ⟨acc.reverse, .err .constraint⟩
-        else if c.unique && dupIn v ts.name (some r.rid) ci nv then ⟨acc.reverse, .err .constraint⟩
+        if c.notNull && nv == .null then ⟨[], .err .constraint⟩
+        else if c.unique && dupIn v ts.name (some r.rid) ci nv then ⟨[], .err .constraint⟩
         else
           let e := Effect.upd r.rid ci nv
-          planUpd ts ci c add x p (v.apply e) rs (e :: acc) (n + 1)
-    else planUpd ts ci c add x p v rs acc n
+          (planUpd ts ci c add x p (v.apply e) rs).cons e
+    else planUpd ts ci c add x p v rs
 
-def planDel (t : String) (p : Option (Nat × CmpOp × Val)) : List ARow → List Effect → Nat → Plan
-  | [], acc, n => ⟨acc.reverse, .okN n⟩
-  | r :: rs, acc, n =>
-    if r.table == t && rowMatches p r.vals then planDel t p rs (Effect.del r.rid :: acc) (n + 1)
-    else planDel t p rs acc n
+def planDel (t : String) (p : Option (Nat × CmpOp × Val)) : List ARow → Plan
+  | [] => ⟨[], .okN 0⟩
+  | r :: rs =>
+    if r.table == t && rowMatches p r.vals then (planDel t p rs).cons (Effect.del r.rid)
+    else planDel t p rs
 
 /-- rows of a table matching a bound predicate, in view order -/
 def evalQuery (t : String) (p : Option (Nat × CmpOp × Val)) (v : View) : List (List Val) :=
@@ -266,7 +287,7 @@ def planStmt (cat : Catalog) (clock : Nat) (j0 : Nat) (v : View) : Stmt → Plan
     | none => ⟨[], .err .notfound⟩
     | some ts =>
       if rows.any (fun r => r.length != ts.cols.length) then ⟨[], .err .other⟩
-      else planIns ts clock v rows j0 [] 0
+      else planIns ts clock v rows j0
   | .upd t col add x p =>
     match findTable cat t with
     | none => ⟨[], .err .notfound⟩
@@ -274,13 +295,13 @@ def planStmt (cat : Catalog) (clock : Nat) (j0 : Nat) (v : View) : Stmt → Plan
       | none => ⟨[], .err .notfound⟩
       | some (ci, c) => match bindPred ts p with
         | .error e => ⟨[], .err e⟩
-        | .ok bp => planUpd ts ci c add x bp v v [] 0
+        | .ok bp => planUpd ts ci c add x bp v v
   | .del t p =>
     match findTable cat t with
     | none => ⟨[], .err .notfound⟩
     | some ts => match bindPred ts p with
       | .error e => ⟨[], .err e⟩
-      | .ok bp => planDel t bp v [] 0
+      | .ok bp => planDel t bp v
 
 def countIns : List Effect → Nat
   | [] => 0
@@ -498,13 +519,15 @@ def State.stmt (D : Defects) (σ : State) (tid : Nat) (j0 : Nat) (st : Stmt) : S
   if p.out.isErr && !D.stmtNotAtomicInSession then (σ, p) else (σ.write D tid p.effs, p)
 
 /-- statements of a batch, stopping at the first failure -/
-def State.batch (D : Defects) : State → Nat → Nat → List Stmt → List SOut → State × List SOut × Option Err
-  | σ, _, _, [], acc => (σ, acc.reverse, Option.none)
-  | σ, tid, j0, st :: sts, acc =>
+def State.batch (D : Defects) : State → Nat → Nat → List Stmt → State × List SOut × Option Err
+  | σ, _, _, [] => (σ, [], Option.none)
+  | σ, tid, j0, st :: sts =>
     let (σ', p) := σ.stmt D tid j0 st
     match p.out with
-    | .err e => (σ', acc.reverse, some e)
-    | o => State.batch D σ' tid (j0 + countIns p.effs) sts (o :: acc)
+    | .err e => (σ', [], some e)
+    | o =>
+      let (σ'', outs, r) := State.batch D σ' tid (j0 + countIns p.effs) sts
+      (σ'', o :: outs, r)
 
 def State.endSession (σ : State) (s : String) : State := { σ with sessions := erase s σ.sessions }
 
@@ -544,7 +567,7 @@ def stepCore (D : Defects) (σ : State) : Op → State × Out
       (σ3, if ok then .stmt p.out else .conflict)
   | .batch sts =>
     let (σ1, tid) := σ.beginTxn D
-    match State.batch D σ1 tid 0 sts [] with
+    match State.batch D σ1 tid 0 sts with
     | (σ2, _, some e) => (σ2.abortTxn tid, .batchErr e)
     | (σ2, outs, Option.none) =>
       let (σ3, ok) := σ2.commitTxn tid
@@ -589,8 +612,8 @@ def ATxn.ws (a : ATxn) : List Rid := a.effs.map Effect.rid
 structure State where
   cat : Catalog
   committed : View
-  /-- write sets of the committed transactions, in commit order -/
-  log : List (List Rid)
+  /-- (number of commits at its begin, write set) of the committed transactions, in commit order -/
+  log : List (Nat × List Rid)
   sessions : List (String × ATxn)
   clock : Nat
   deriving Repr
@@ -599,25 +622,29 @@ def State.init (cat : Catalog) : State := { cat, committed := [], log := [], ses
 
 def State.beginTxn (α : State) : ATxn := ⟨α.committed, [], α.log.length⟩
 
-def conflict (log : List (List Rid)) (a : ATxn) : Bool := (log.drop a.beginIdx).any (fun w => overlaps w a.ws)
+/-- some transaction that committed after `a` began wrote a row that `a` wrote -/
+def conflict (log : List (Nat × List Rid)) (a : ATxn) : Bool := (log.drop a.beginIdx).any (fun e => overlaps e.2 a.ws)
 
-/-- first-committer-wins commit -/
+/-- first-committer-wins commit: refused on a conflict; otherwise the committed database takes over the
+    transaction's final version of every row it wrote (inserted, updated or deleted), all other rows are unchanged -/
 def State.commitTxn (α : State) (a : ATxn) : State × Bool :=
   if conflict α.log a then (α, false)
-  else ({ α with committed := α.committed.applyAll a.effs, log := α.log ++ [a.ws] }, true)
+  else ({ α with committed := takeOver α.committed a.view a.ws, log := α.log ++ [(a.beginIdx, a.ws)] }, true)
 
 /-- a statement is atomic: a failing one contributes no effect -/
 def stmt (cat : Catalog) (clock : Nat) (a : ATxn) (j0 : Nat) (st : Stmt) : ATxn × Plan :=
   let p := planStmt cat clock j0 a.view st
   if p.out.isErr then (a, p) else ({ a with effs := a.effs ++ p.effs }, p)
 
-def batch (cat : Catalog) (clock : Nat) : ATxn → Nat → List Stmt → List SOut → ATxn × List SOut × Option Err
-  | a, _, [], acc => (a, acc.reverse, Option.none)
-  | a, j0, st :: sts, acc =>
+def batch (cat : Catalog) (clock : Nat) : ATxn → Nat → List Stmt → ATxn × List SOut × Option Err
+  | a, _, [] => (a, [], Option.none)
+  | a, j0, st :: sts =>
     let (a', p) := stmt cat clock a j0 st
     match p.out with
-    | .err e => (a', acc.reverse, some e)
-    | o => batch cat clock a' (j0 + countIns p.effs) sts (o :: acc)
+    | .err e => (a', [], some e)
+    | o =>
+      let (a'', outs, r) := batch cat clock a' (j0 + countIns p.effs) sts
+      (a'', o :: outs, r)
 
 def stepCore (α : State) : Op → State × Out
   | .begin s => ({ α with sessions := (s, α.beginTxn) :: erase s α.sessions }, .ok)
@@ -648,12 +675,12 @@ def stepCore (α : State) : Op → State × Out
       let (α1, ok) := α.commitTxn a'
       (α1, if ok then .stmt p.out else .conflict)
   | .batch sts =>
-    match batch α.cat α.clock α.beginTxn 0 sts [] with
+    match batch α.cat α.clock α.beginTxn 0 sts with
     | (_, _, some e) => (α, .batchErr e)
     | (a', outs, Option.none) =>
       let (α1, ok) := α.commitTxn a'
       (α1, if ok then .batch outs else .batchErr .conflict)
-  | .tick => ({ α with log := α.log ++ [[]] }, .ok)
+  | .tick => ({ α with log := α.log ++ [(α.log.length, [])] }, .ok)
   | .nop => (α, .none)
 
 def step (α : State) (op : Op) : State × Out :=
